@@ -25,7 +25,8 @@ RULE = ("start state = empty / dict-initialised / parsed-from-text / parsed-from
         "custom keys) / copy / dump->parse / drop-handle / gc.collect, incl. failing "
         "operations; all live handles are compared with the list model after every step; an "
         "evaluation is one run; distinct = distinct (handle, op, outcome) sequence hash; "
-        "non-trivial = at least one re-ordering and one failing operation occurred")
+        "non-trivial = at least one re-ordering and one failing operation occurred"
+        '; later additions: quiet observers, paragraph read as one of several from a stream, re-parse from str / bytes / file / line list, dump(fd), values beyond one I/O buffer, values with rare line-break characters, bare CR (refused), name families equal under lower() only, sort keys with ties / consulting the mapping')
 REAL = ["debian.deb822.Deb822 / Deb822Dict (mapping protocol, order_*, sort_fields, copy, "
         "dump, _internal_parser)", "debian._util.OrderedSet / LinkedList / LinkedListNode / "
         "_CaseInsensitiveString", "collections.abc.MutableMapping mixins", "weakref, gc"]
